@@ -171,6 +171,8 @@ show("order", lambda: (cee.order(1, 2.5, "three", True), cee.order(d=False, c=""
 show("ns", lambda: cee.ns.nsf(1))
 show("dims", lambda: (cee.halo(1, 3), cee.halo(m=2, n=2), cee.nodes(1, 3), cee.nodes(2, 2), cee.halo(0, 1)))
 show("total", lambda: (cee.total([1, 2, 3]), cee.total([1.5, 2.0]), cee.total([1, 2, 3.5]), cee.total(v=[0.25, 0.25]), cee.total([])))
+show("scale", lambda: (cee.scale(5), cee.scale(5, 2), cee.scale(n=4), cee.scale("ab", 1, 2, 3)))
+show("tally", lambda: (cee.tally([1, 2, 3]), cee.tally([1, 2, 3], 10), cee.tally(v=[4]), cee.tally(1, 2, 3, 4)))
 show("over-kw", lambda: (cee.over(a=7), cee.over(a=0.5), cee.tmpl(a=2)))
 show("bad-add", lambda: a.add("x"))
 show("bad-ctor", lambda: cee.Cls())
@@ -181,13 +183,14 @@ show("bad-kw", lambda: cee.dflt(3, nosuch=1))
 
 
 def python_scenario(args):
-    workdir, lang = args
+    workdir, lang = args[:2]
+    more = args[2] if len(args) > 2 else {}
     import yaml as _y
 
     from . import c02
 
     y = _y.safe_load(c02.SCEN_YAML)
-    y["options"] = {"wrap_fortran": False, "wrap_c": False, "wrap_python": True, "wrap_lua": False, "PY_array_arg": "list"}
+    y["options"] = dict({"wrap_fortran": False, "wrap_c": False, "wrap_python": True, "wrap_lua": False, "PY_array_arg": "list"}, **more)
     # left out: by-value class result, class-pointer free function, nested namespace (they do not build or crash: C05 / known findings),
     # the const / non-const pair (no documented rule says which one Python reaches)
     y["declarations"] = [d for d in y["declarations"] if not d["decl"].startswith(("Cls valCls", "void takes"))]
@@ -223,7 +226,7 @@ def python_scenario(args):
     exp_obs = ["OBS ids -> (5, 9)", "OBS add -> (8, 13, 4)", "OBS twice -> (42, 4)", "OBS rename -> (None, None)", "OBS names -> ('', 'bee')",
                "OBS find -> (100, 101)", "OBS new -> (7, 8, True)", "OBS color -> (3, 4, 0)", "OBS over -> (None, None)", "OBS dflt -> (32, 34, 35, 62)",
                "OBS tmpl -> (42, 2.5)", "OBS weigh -> (7.5, 1.5)", "OBS order -> (None, None)", "OBS ns -> 2", "OBS dims -> (%r, %r, %r, %r, %r)" % (list(range(100, 109)), list(range(100, 108)), list(range(200, 208)), list(range(200, 209)), [100, 101]),
-               "OBS total -> (6, 3.5, 6.5, 0.5, 0)", "OBS over-kw -> (None, None, 3)", "OBS bad-add raises TypeError/ValueError",
+               "OBS total -> (6, 3.5, 6.5, 0.5, 0)", "OBS scale -> ((15, 8), (10, 7), (12, 7), 6)", "OBS tally -> (106, 16, 104, 10)", "OBS over-kw -> (None, None, 3)", "OBS bad-add raises TypeError/ValueError",
                "OBS bad-ctor raises TypeError/ValueError", "OBS bad-over raises TypeError/ValueError", "OBS bad-extra raises TypeError/ValueError",
                "OBS bad-kw raises TypeError/ValueError"]
     exp_recv = ["RECV Cls::Cls id=5", "RECV Cls::Cls id=9", "RECV Cls::add this=5 x=3", "RECV Cls::add this=9 x=4", "RECV Cls::add this=5 x=-1",
@@ -237,6 +240,8 @@ def python_scenario(args):
                 "RECV weigh<int,double> count=3 scale=" + A.rnd(D, 2.5), "RECV weigh<int,double> count=3 scale=" + A.rnd(D, 0.5),
                 "RECV order a=1 b=%s c=5:[three] d=1" % A.rnd(D, 2.5), "RECV order a=-1 b=%s c=0:[] d=0" % A.rnd(D, -2.5),
                 "RECV ns::nsf a=1", "RECV halo n=1 m=3", "RECV halo n=2 m=2", "RECV nodes n=1 m=3", "RECV nodes n=2 m=2", "RECV halo n=0 m=1", "RECV total(int) n=3", "RECV total(double) n=2", "RECV total(double) n=3", "RECV total(double) n=2", "RECV total(int) n=0",
+                "RECV scale(int) n=5 factor=3", "RECV scale(int) n=5 factor=2", "RECV scale(int) n=4 factor=3", "RECV scale(str) name=2:[ab] a=1",
+                "RECV tally(arr) n=3 bias=100", "RECV tally(arr) n=3 bias=10", "RECV tally(arr) n=1 bias=100", "RECV tally(4) a=1",
                 "RECV over(int) a=7", "RECV over(double) a=" + A.rnd(D, 0.5), "RECV tmpl<int> a=2"]
     errs = []
     if rc != 0:
@@ -392,10 +397,12 @@ def run(ctx):
             elif kind == "crash" and "cls_ptr" in (sig or ""):
                 key = "py: class pointer argument of a free function crashes the interpreter"
             ctx.violation(key, msg, {"kind": kind, "decl": decl, "lang": job[3]})
-    serrs, sn = python_scenario((os.path.join(wd, "scen"), "cxx"))
-    calls += sn
-    for kind, what, msg in serrs:
-        ctx.violation("%s %s" % (kind, what), msg, {"kind": kind, "scenario": True})
+    # the second run sets an option that governs only pointer results WITHOUT a shape: every observation stays
+    for si, more in enumerate(({}, {"return_scalar_pointer": "scalar"})):
+        serrs, sn = python_scenario((os.path.join(wd, "scen%d" % si), "cxx", more))
+        calls += sn
+        for kind, what, msg in serrs:
+            ctx.violation("%s %s%s" % (kind, what, " [%s]" % ",".join(more) if more else ""), msg + (" (options %s)" % more if more else ""), {"kind": kind, "scenario": True, "options": more})
     ures = isolate.pmap(upstream_py_case, [(os.path.join(wd, "up-" + n), ctx.repo, n) for n in UPSTREAM_PY], W)
     ran, ntests, skipped = [], 0, []
     for name, st, info in ures:
